@@ -72,6 +72,11 @@ def check(tier, seed, replay=None):
                 e = X.call("concat", X.ext(["g"]), X.call("stringify", base)) if pos == "group" else base
                 if pos == "sort":
                     e = X.call("default", base, X.ext(["v"]))
+            if pos != "variable" and rnd.random() < 0.12 and EL.is_ascii(X.text(e)):
+                # the expression handed over as text: (parse_selection "<text>") means what the text means, in every position and on every record
+                e = X.call("parse_selection", X.lit(("str", X.cps(X.text(e)))))
+                if len(rows) < 2:
+                    rows = rows + [X.typed_input(rnd), X.typed_input(rnd)]
             plans.append({"kind": "pos", "pos": pos, "expr": X.text(X.decorate(e, rnd, table)), "rows": rows, "ctx": ctx})
         for i in range(n):
             e = X.gen_typed(rnd, table, rnd.choice(["num", "str", "bool", "list:num", "obj", "any"]), rnd.choice([1, 2, 3, 4]), X.Env())
